@@ -27,7 +27,9 @@ THEOREMS = {
     "C12": ["clusters_cell_rows", "clusters_cell_from_scratch", "clusters_partial_hist", "clusters_query_cell",
             "tree_unobserved_arm", "tree_fit_empty_batch_arm"],
     "C13": ["ws_pairs_spec", "ws_target", "ws_untouched", "cold_arms_spec", "cold_not_trained", "coldToWarm_targets",
-            "copyFold_get_target", "copyFold_get_other", "argminFirst_spec"],
+            "copyFold_get_target", "copyFold_get_other", "argminFirst_spec",
+            "sortRat_sorted", "quantileLin_mono", "ws_monotone_in_quantile", "ws_raises_indep", "warmed_coldToWarm",
+            "ws_idempotent"],
     "C14": ["fit_binarizer_once", "partialFit_binarizer_once", "binarize_spec", "binarize_noop_ctxBin", "np_binarize_once",
             "addArm_new_binarizer", "tree_binarizer_twice_counterexample"],
     "C15": ["sim_distance_lookup", "slice_row", "sim_selection_eq_library", "sim_cache_correct", "sim_cache_fresh",
@@ -54,7 +56,7 @@ IMPORTS = {
     "C10": ["MabModel.Props.C10"],
     "C11": ["MabModel.Props.C11"],
     "C12": ["MabModel.Props.C12"],
-    "C13": ["MabModel.Props.C13"],
+    "C13": ["MabModel.Props.C13", "MabModel.Props.C13b"],
     "C14": ["MabModel.Props.C14"],
     "C15": ["MabModel.Props.C15"],
     "C16": ["MabModel.Props.C16"],
